@@ -332,12 +332,16 @@ pub fn run(tier: &str, seed: u64) -> Stats {
     };
     let mut rng = Rng::new(seed);
     let mut lens: Vec<usize> = (0..=80).collect();
-    lens.extend([255, 256, 4095, 4096, 65537]);
+    lens.extend([255, 256, 4095, 4096, 65537, (1 << 20) - 1, 1 << 20, (1 << 20) + 1, (1 << 21) + 5]);
     let mut metas: Vec<Option<usize>> = vec![None, Some(0)];
     metas.extend((1..=40).step_by(if tier == "thorough" { 1 } else { 3 }).map(Some));
     metas.push(Some(1000));
     // lengths around the LEB128 boundaries of the serialized length prefix (nonce 12 + tag 16 added)
     for l in [99usize, 100, 101, 127, 128, 129, 16355, 16356, 16357, 16383, 16384, 16385] {
+        metas.push(Some(l));
+    }
+    // ... and around 1 MiB (nonce and tag included or not)
+    for l in [(1usize << 16) - 28, 1 << 16, (1 << 20) - 29, (1 << 20) - 28, (1 << 20) - 27, (1 << 20) - 1, 1 << 20] {
         metas.push(Some(l));
     }
     let rounds = if tier == "thorough" { 6 } else { 1 };
@@ -377,7 +381,7 @@ pub fn run(tier: &str, seed: u64) -> Stats {
             Err(_) => st.inconclusive.push("worker died".into()),
         }
     }
-    st.sample(json!({"pke_plaintext_lengths": "0..=80,255,256,4095,4096,65537", "metadata_lengths": format!("{metas:?}"), "aad": "absent, empty, 'x', 'y', 33 random bytes; all 5x5 (generate, decrypt) pairs", "keys": fx.keys.iter().map(|k| k.0).collect::<Vec<_>>()}), 3);
+    st.sample(json!({"pke_plaintext_lengths": "0..=80,255,256,4095,4096,65537,2^20-1,2^20,2^20+1,2^21+5", "metadata_lengths": format!("{metas:?}"), "aad": "absent, empty, 'x', 'y', 33 random bytes; all 5x5 (generate, decrypt) pairs", "keys": fx.keys.iter().map(|k| k.0).collect::<Vec<_>>()}), 3);
     let mut seen = std::collections::BTreeSet::new();
     st.findings.retain(|f| seen.insert(f.signature.clone()));
     st
